@@ -32,7 +32,7 @@ CHECKS = {
 
  "C02": dict(engine="E2-sched", cat="model_checking", ref="DESIGN.md §5 C02, §4 E2",
    technique="stateless preemption-bounded DFS over all interleavings of the real writer threads under a controlled scheduler, with a state observer at every decision point",
-   text="Every interleaving (within the preemption bound) of 2-3 concurrent Store::append calls at lock / id / commit / broadcast granularity, with and without followers; at every decision point an observer re-reads every scope and a last-id poller advances: the visible stream may only grow at its end, followers receive ids in increasing order, the poller reconstructs the final stream exactly. A hook-free multi-writer stress run (4 writers, follower, last-id poller) is appended as a supplementary detector for reorderings inside one scheduling step; it is a sample and not the deciding step.",
+   text="Every interleaving (within the preemption bound) of 2-3 concurrent Store::append calls at lock / id / commit / broadcast granularity, with and without followers; at every decision point an observer re-reads every scope and a last-id poller advances: the visible stream may only grow at its end, followers receive ids in increasing order, the poller reconstructs the final stream exactly. A script-appenders run (handler, command and generator emitting from their own threads while a client appends) and a hook-free multi-writer stress run (4 writers, follower, last-id poller) are appended as supplementary detectors for reorderings inside one scheduling step; it is a sample and not the deciding step.",
    note=E2_NOTE),
  "C03": dict(engine="E2-sched", cat="model_checking", ref="DESIGN.md §5 C03",
    technique="stateless preemption-bounded DFS over the real subscribe/scan/hand-off/live steps of Store::read interleaved with appenders",
